@@ -59,6 +59,7 @@ type Env struct {
 	trace    []string
 	bankCall int
 	order    []string // interleaving of hook calls and bank transfers, in the order they happened
+	hookViol []string // what a listener saw in the store that contradicts "before" / "after"
 	failAt   int      // -1: never
 }
 
@@ -355,6 +356,22 @@ type listener struct {
 	fails []int
 }
 
+// storedAtHook: a listener may read the module's store.  When it is told that an auction is ABOUT to be created the
+// auction must not be in the store yet (the sequence is one ahead of the stored auctions); when it is told that the
+// auction HAS been created it must be there
+func (l *listener) storedAtHook(ctx context.Context, kind int) {
+	n := uint64(0)
+	_ = l.e.k.Auction.Walk(ctx, nil, func(uint64, types.AuctionI) (bool, error) { n++; return false, nil })
+	seq, err := l.e.k.AuctionSeq.Peek(ctx)
+	if err != nil {
+		return
+	}
+	before := kind == 0 || kind == 2
+	if (before && n+1 != seq) || (!before && n != seq) {
+		l.e.hookViol = append(l.e.hookViol, fmt.Sprintf("listener=%d hook=%d auctions_in_store=%d sequence=%d", l.idx, kind, n, seq))
+	}
+}
+
 func (l *listener) call(kind int, args string) error {
 	l.e.trace = append(l.e.trace, fmt.Sprintf("%d %d %s", l.idx, kind, args))
 	first := args
@@ -404,15 +421,19 @@ func (e *Env) encMap(m map[string]math.Int) string {
 }
 
 func (l *listener) BeforeFixedPriceAuctionCreated(ctx context.Context, auctioneer string, startPrice math.LegacyDec, sellingCoin sdk.Coin, payingCoinDenom string, vestingSchedules []types.VestingSchedule, startTime, endTime time.Time) error {
+	l.storedAtHook(ctx, 0)
 	return l.call(0, fmt.Sprintf("%s %s %d %s %d %s %s %s", l.e.encAddrStr(auctioneer), encDec(startPrice), denomIdx(sellingCoin.Denom), sellingCoin.Amount, denomIdx(payingCoinDenom), encScheds(vestingSchedules), encTime(startTime), encTime(endTime)))
 }
 func (l *listener) AfterFixedPriceAuctionCreated(ctx context.Context, auctionId uint64, auctioneer string, startPrice math.LegacyDec, sellingCoin sdk.Coin, payingCoinDenom string, vestingSchedules []types.VestingSchedule, startTime, endTime time.Time) error {
+	l.storedAtHook(ctx, 1)
 	return l.call(1, fmt.Sprintf("%d %s %s %d %s %d %s %s %s", auctionId, l.e.encAddrStr(auctioneer), encDec(startPrice), denomIdx(sellingCoin.Denom), sellingCoin.Amount, denomIdx(payingCoinDenom), encScheds(vestingSchedules), encTime(startTime), encTime(endTime)))
 }
 func (l *listener) BeforeBatchAuctionCreated(ctx context.Context, auctioneer string, startPrice, minBidPrice math.LegacyDec, sellingCoin sdk.Coin, payingCoinDenom string, vestingSchedules []types.VestingSchedule, maxExtendedRound uint32, extendedRoundRate math.LegacyDec, startTime, endTime time.Time) error {
+	l.storedAtHook(ctx, 2)
 	return l.call(2, fmt.Sprintf("%s %s %s %d %s %d %s %d %s %s %s", l.e.encAddrStr(auctioneer), encDec(startPrice), encDec(minBidPrice), denomIdx(sellingCoin.Denom), sellingCoin.Amount, denomIdx(payingCoinDenom), encScheds(vestingSchedules), maxExtendedRound, encDec(extendedRoundRate), encTime(startTime), encTime(endTime)))
 }
 func (l *listener) AfterBatchAuctionCreated(ctx context.Context, auctionId uint64, auctioneer string, startPrice, minBidPrice math.LegacyDec, sellingCoin sdk.Coin, payingCoinDenom string, vestingSchedules []types.VestingSchedule, maxExtendedRound uint32, extendedRoundRate math.LegacyDec, startTime, endTime time.Time) error {
+	l.storedAtHook(ctx, 3)
 	return l.call(3, fmt.Sprintf("%d %s %s %s %d %s %d %s %d %s %s %s", auctionId, l.e.encAddrStr(auctioneer), encDec(startPrice), encDec(minBidPrice), denomIdx(sellingCoin.Denom), sellingCoin.Amount, denomIdx(payingCoinDenom), encScheds(vestingSchedules), maxExtendedRound, encDec(extendedRoundRate), encTime(startTime), encTime(endTime)))
 }
 func (l *listener) BeforeAuctionCanceled(ctx context.Context, auctionId uint64, auctioneer string) error {
